@@ -46,6 +46,21 @@ def one_case(rng, tier):
     al = Alphabet(rng)
     al.letters = al.letters[:3]
     case = Case(wrapped=True)
+    if rng.random() < 0.06:
+        # a loop with lower bound >= 2 and no upper bound (x x+ is merged into x{2,}) under an optional /
+        # starred / bounded outer loop: flattening nested loops must not add x^1
+        x = case.push("str " + word([al.letters[0]]))
+        inner = case.push("plus %d" % x)
+        body = case.push("concat %d %d" % (x, inner))
+        if rng.random() < 0.4:
+            body = case.push("concat %d %d" % (x, body))
+        outer = case.push(rng.choice(["opt %d", "star %d", "loop %d 0 2", "loop %d 0 3"]) % body)
+        y = case.push("str " + word([al.letters[1]]))
+        t = case.push("concat %d %d" % (outer, y))
+        a_, b_ = al.letters[0], al.letters[1]
+        for s_ in ([a_, b_], [a_, a_, b_], [a_, b_, a_, a_, b_, 120, a_, b_], [b_], [a_, a_, a_, b_]):
+            case.obs("%s %d %s %s" % (rng.choice(["replre", "replreall"]), t, word(s_), word([84])))
+        return case.line()
     t = wterm(rng, case, al, rng.choice([1, 2, 3]))
     for _ in range(rng.choice([2, 3, 4])):
         s = [al.rand_char(rng) for _ in range(rng.choice([0, 1, 2, 3, 4, 5, 6]))]
